@@ -16,6 +16,37 @@ TRUSTED = ["harness `vh tir` (own Context with ObjectContext's resolution order 
            "the general theorem 'every accepted program passes cfg_ok' (C06_builder_ok_full) is NOT proved; cfg_ok is evaluated per program instead"]
 
 
+def incomplete_bodies(ctx):
+    """whole pipeline: a value binding -- of a property, of a member of a grouped value (font.bold, font.pointSize) -- whose body has a reachable path without a value is
+    not accepted; if it were, its evaluation function would run into a bare `return;`"""
+    import os
+    from . import cxx, qml
+    vh = ctx.need_harness()
+    os.environ["VERIF_EXTRA_METATYPES"] = cxx.write_e0w()
+    bodies = ["{ if (a.b) return %(v)s; }", "{ switch (a.i) { case 0: break; default: return %(v)s; } }", "{ if (a.b) { return %(v)s } else { } }",
+              "{ switch (a.i) { case 1: return %(v)s; } }", "{ if (a.b) { return %(v)s } a.act(1); }", "{ return %(v)s }"]
+    targets = [("b", "a.b"), ("i", "a.i"), ("s", "a.s"), ("font.bold", "a.b"), ("font.pointSize", "a.i"), ("font.family", "a.s")]
+    docs, meta = [], []
+    for tname, val in targets:
+        for k, b in enumerate(bodies):
+            src = b % {"v": val}
+            docs.append(cxx.document([("tgt", tname, src)]))
+            meta.append((tname, src, k == len(bodies) - 1))
+    res = qml.run_docs(vh, docs)
+    for (tname, src, complete), doc, r in zip(meta, docs, res):
+        ctx.count(("incomplete-body", tname, src), True)
+        if not isinstance(r, dict) or "diags" not in r:
+            ctx.violation("pipeline gives no result on a block-bodied binding", {"qml": doc, "impl_output": str(r)[:500]})
+            continue
+        accepted = bool(r.get("header")) and not r["has_error"]
+        if accepted and not complete:
+            ctx.violation("%s: %s has a reachable path without a value and is accepted" % (tname, src),
+                          {"qml": doc, "impl_output": r.get("header"), "theorem_or_correspondence": "S: a value-returning body returns a value on every reachable path"})
+        elif complete and not accepted:
+            ctx.violation("%s: %s returns a value on every path and is rejected: %s" % (tname, src, [d["msg"] for d in r["diags"]][:1]), {"qml": doc, "impl_output": r["diags"]})
+    ctx.coverage["incomplete_bodies"] = len(meta)
+
+
 def run(ctx):
     ctx.proof_leg(TARGETS, PINS, k_targets=tircheck.K_TARGETS)
     pool = tircheck.Pool(ctx)
@@ -37,6 +68,7 @@ def run(ctx):
                             "type-directed generated bindings/callbacks (depth <= 4, 1/3 with single-edit mutants); non-trivial = accepted with >= 3 basic blocks; "
                             "distinct by source text" % (3 if ctx.tier == "thorough" else 2))
     ctx.sample({"source": pool.sources[5], "impl_blocks": pool.impl[5].get("code", {}).get("blocks") if isinstance(pool.impl[5], dict) else None})
+    incomplete_bodies(ctx)
     if not ctx.model_ok:
         return
     bad = pool.compare_model()
